@@ -7,6 +7,8 @@ import (
 	"sort"
 	"strconv"
 	"strings"
+
+	yaml2 "gopkg.in/yaml.v2"
 )
 
 // Grammar-based document generator driven by the struct tags of the real spec
@@ -622,4 +624,272 @@ func (g *Gen) Boundary(doc map[string]interface{}, t reflect.Type, depth int) {
 		}
 		doc[ti.Name] = c[g.R.Intn(len(c))]
 	}
+}
+
+// ---------------------------------------------------------------------------
+// systematic single-path boundary documents (adversarial stream): every leaf
+// of the spec type can be driven to an extreme value inside an otherwise valid
+// document, creating the containers on the way when they are absent.
+
+// PathStep is one step into a spec type: a field name, or "" for an element of
+// a slice / a value of a map.
+type PathStep struct {
+	Field string
+	Elem  bool
+}
+
+// LeafPaths enumerates the scalar (and list) leaves of a spec type.
+func LeafPaths(t reflect.Type) [][]PathStep {
+	var out [][]PathStep
+	var walk func(t reflect.Type, pre []PathStep, depth int)
+	walk = func(t reflect.Type, pre []PathStep, depth int) {
+		for t.Kind() == reflect.Ptr {
+			t = t.Elem()
+		}
+		if depth > 10 {
+			return
+		}
+		cp := func(s PathStep) []PathStep { return append(append([]PathStep{}, pre...), s) }
+		switch t.Kind() {
+		case reflect.Struct:
+			for _, f := range Fields(t) {
+				walk(f.Type, cp(PathStep{Field: ParseTag(f).Name}), depth+1)
+			}
+		case reflect.Slice, reflect.Array:
+			out = append(out, append([]PathStep{}, pre...)) // the list itself (empty / duplicates)
+			et := t.Elem()
+			for et.Kind() == reflect.Ptr {
+				et = et.Elem()
+			}
+			if et.Kind() == reflect.Struct || et.Kind() == reflect.Map || et.Kind() == reflect.Slice {
+				walk(t.Elem(), cp(PathStep{Elem: true}), depth+1)
+			} else {
+				out = append(out, cp(PathStep{Elem: true}))
+			}
+		case reflect.Map:
+			if t.Key().Kind() != reflect.String {
+				return
+			}
+			et := t.Elem()
+			for et.Kind() == reflect.Ptr {
+				et = et.Elem()
+			}
+			if et.Kind() == reflect.Struct || et.Kind() == reflect.Map || et.Kind() == reflect.Slice {
+				walk(t.Elem(), cp(PathStep{Elem: true}), depth+1)
+			} else {
+				out = append(out, cp(PathStep{Elem: true}))
+			}
+		case reflect.Interface:
+		default:
+			out = append(out, append([]PathStep{}, pre...))
+		}
+	}
+	walk(t, nil, 0)
+	return out
+}
+
+func (g *Gen) extreme(t reflect.Type, ti TagInfo) interface{} {
+	for t.Kind() == reflect.Ptr {
+		t = t.Elem()
+	}
+	switch t.Kind() {
+	case reflect.String:
+		// the tags may be what changed: choose by what the field NAME suggests
+		n := strings.ToLower(ti.Name)
+		switch {
+		case strings.Contains(n, "regex") || strings.HasSuffix(n, "re"):
+			return g.pick("(", "(", "[a-", "")
+		case strings.Contains(n, "timeout") || strings.Contains(n, "duration") || strings.Contains(n, "period") ||
+			strings.Contains(n, "expiration") || strings.Contains(n, "delay") || strings.Contains(n, "ttl") || strings.Contains(n, "wait"):
+			return g.pick("0s", "-1s", "abc", "", "0ms")
+		case strings.Contains(n, "compress"):
+			return g.pick("deflate", "br", "GZIP")
+		case strings.Contains(n, "template"):
+			return g.pick("{{", "{{ .x", "")
+		case strings.Contains(n, "url"):
+			return g.pick("://bad", "", "http://[::1", "%zz")
+		case strings.Contains(n, "policy") || strings.Contains(n, "mode") || strings.Contains(n, "type") || strings.Contains(n, "algorithm"):
+			return g.pick("", "bogus", "x")
+		}
+		opts := []string{"", "(", "0s", "-1s", "x", "abc", "END", "deflate", "{{", "a b", "1h"}
+		return opts[g.R.Intn(len(opts))]
+	case reflect.Bool:
+		return g.chance(1, 2)
+	case reflect.Float32, reflect.Float64:
+		return []interface{}{int64(0), float64(-0.5), float64(1.001), int64(2), int64(-1)}[g.R.Intn(5)]
+	case reflect.Slice, reflect.Array:
+		if g.chance(1, 2) {
+			return []interface{}{}
+		}
+		e := g.Value(t.Elem(), TagInfo{Name: ti.Name}, 3)
+		return []interface{}{e, cloneTree(e)}
+	case reflect.Map:
+		return map[string]interface{}{}
+	case reflect.Struct, reflect.Interface:
+		return nil
+	}
+	lo, hi := intRange(t.Kind())
+	c := []int64{0, 0, 0, -1, -1, 1, -100, hi, lo}
+	if ti.Min != nil {
+		c = append(c, *ti.Min-1, *ti.Min)
+	}
+	if ti.Max != nil {
+		c = append(c, *ti.Max+1, *ti.Max)
+	}
+	return c[g.R.Intn(len(c))]
+}
+
+// SetPath drives the leaf at path to an extreme value, creating what is missing.
+func (g *Gen) SetPath(doc map[string]interface{}, t reflect.Type, path []PathStep) {
+	var cur interface{} = doc
+	var set func(v interface{})
+	ti := TagInfo{}
+	for i, st := range path {
+		for t.Kind() == reflect.Ptr {
+			t = t.Elem()
+		}
+		last := i == len(path)-1
+		switch {
+		case !st.Elem:
+			m, ok := cur.(map[string]interface{})
+			if !ok || t.Kind() != reflect.Struct {
+				return
+			}
+			var ft reflect.Type
+			for _, f := range Fields(t) {
+				if ti2 := ParseTag(f); ti2.Name == st.Field {
+					ft, ti = f.Type, ti2
+				}
+			}
+			if ft == nil {
+				return
+			}
+			if last {
+				m[st.Field] = g.extreme(ft, ti)
+				return
+			}
+			nxt, has := m[st.Field]
+			if !has || nxt == nil {
+				nxt = g.container(ft, ti)
+				m[st.Field] = nxt
+			}
+			key := st.Field
+			set = func(v interface{}) { m[key] = v }
+			cur, t = nxt, ft
+		default:
+			var et reflect.Type
+			switch t.Kind() {
+			case reflect.Slice, reflect.Array:
+				et = t.Elem()
+				l, ok := cur.([]interface{})
+				if !ok {
+					return
+				}
+				if len(l) == 0 {
+					l = append(l, g.container(et, ti))
+					if set != nil {
+						set(l)
+					}
+				}
+				idx := g.R.Intn(len(l))
+				if last {
+					l[idx] = g.extreme(et, TagInfo{Name: ti.Name})
+					return
+				}
+				if l[idx] == nil {
+					l[idx] = g.container(et, ti)
+				}
+				ll := l
+				set = func(v interface{}) { ll[idx] = v }
+				cur, t = l[idx], et
+			case reflect.Map:
+				et = t.Elem()
+				m, ok := cur.(map[string]interface{})
+				if !ok {
+					return
+				}
+				if len(m) == 0 {
+					m["X-Test"] = g.container(et, ti)
+				}
+				ks := make([]string, 0, len(m))
+				for k := range m {
+					ks = append(ks, k)
+				}
+				sort.Strings(ks)
+				k := ks[g.R.Intn(len(ks))]
+				if last {
+					m[k] = g.extreme(et, TagInfo{Name: ti.Name})
+					return
+				}
+				if m[k] == nil {
+					m[k] = g.container(et, ti)
+				}
+				set = func(v interface{}) { m[k] = v }
+				cur, t = m[k], et
+			default:
+				return
+			}
+		}
+	}
+}
+
+// container builds a fresh value to descend into.
+func (g *Gen) container(t reflect.Type, ti TagInfo) interface{} {
+	for t.Kind() == reflect.Ptr {
+		t = t.Elem()
+	}
+	switch t.Kind() {
+	case reflect.Struct:
+		return g.Struct(t, 3)
+	case reflect.Slice, reflect.Array:
+		return []interface{}{g.container(t.Elem(), ti)}
+	case reflect.Map:
+		return map[string]interface{}{"X-Test": g.container(t.Elem(), ti)}
+	}
+	return g.Value(t, ti, 3)
+}
+
+// AdvItem is one (kind, leaf) pair of the systematic adversarial plan.
+type AdvItem struct {
+	Cat, Kind string
+	Path      []PathStep
+}
+
+var advPlan []AdvItem
+
+// AdvPlan lists every leaf of every registered filter / resilience kind.
+func AdvPlan() []AdvItem {
+	if advPlan != nil {
+		return advPlan
+	}
+	for _, k := range FilterKinds() {
+		for _, p := range LeafPaths(SpecType("filter", k)) {
+			advPlan = append(advPlan, AdvItem{"filter", k, p})
+		}
+	}
+	for _, k := range ResilKinds() {
+		for _, p := range LeafPaths(SpecType("resilience", k)) {
+			advPlan = append(advPlan, AdvItem{"resilience", k, p})
+		}
+	}
+	return advPlan
+}
+
+// GenAdvDoc builds the document of plan item it: a valid template of the kind (or a
+// generated document) with exactly that leaf driven to an extreme value.
+func (g *Gen) GenAdvDoc(it AdvItem) map[string]interface{} {
+	t := SpecType(it.Cat, it.Kind)
+	var doc map[string]interface{}
+	if tpls := Templates[it.Kind]; len(tpls) > 0 {
+		var raw interface{}
+		if err := yaml2.Unmarshal([]byte(tpls[g.R.Intn(len(tpls))]), &raw); err == nil {
+			doc, _ = CanonTree(raw).(map[string]interface{})
+		}
+	}
+	if doc == nil {
+		doc = g.Struct(t, 0)
+		doc["kind"], doc["name"] = it.Kind, "f1"
+	}
+	g.SetPath(doc, t, it.Path)
+	return doc
 }
